@@ -18,6 +18,9 @@ structure DSt where
   hist : List Rec := []
   trunc : Nat := 0
   valid : Bool := true
+  /-- the active segment was padded by `fill`: the next record does not fit, `AppendRecords`
+  rotates (flush + fsync + new segment) before it encodes it -/
+  full : Bool := false
   -- C36
   scfg : Seg.SCfg := Seg.SCfg.good
   ss : Seg.S := {}
@@ -36,6 +39,9 @@ def setCfg (st : DSt) (kv : String) : Option DSt :=
     | "seg.canRemoveOps" => if v == "ge,ge" then some st else none
     | "seg.wdCandidateOp" => if v == "lt" then some st else none
     | "seg.recoveryRule" => if v == "le:true" then some st else none
+    | "seg.wdRetainShape" => if v == "perPointerMin" then some st else none
+    | "seg.flushRemovePos" => if v == "afterInstall" then some st else none
+    | "seg.flushEditOrder" => if v == "EditAddFile,EditLogPointer" then some st else none
     | "raftwal.syncFlushes" => do let b ← boolOfString? v; pure { st with cfg := { st.cfg with syncFlushes := b } }
     | _ => none
   | _ => none
@@ -118,7 +124,10 @@ def specCall (st : DSt) (cl : Call) : DSt × String :=
 def runCall (st : DSt) (cl : Call) : DSt × String :=
   let (st1, spec) := specCall st cl
   if st.dead then (st1, "dead\t" ++ spec) else
-  let s' := doCall st.cfg st.s cl
+  let rot := st.full && (recOfCall cl).isSome
+  let s0 := if rot then step st.cfg st.s .rotate else st.s
+  let st1 := if rot then { st1 with full := false } else st1
+  let s' := doCall st.cfg s0 cl
   let out := if s'.ok then "ok" else (match cl with
     | .app _ _ => "panic"
     | _ => "err")
@@ -132,7 +141,7 @@ def doCrash (st : DSt) (s0 : St) : DSt × String :=
   if st.dead then (st, "dead\t" ++ spec) else
   if !validPtr s0.segsD s0.ptr then ({ st with dead := true }, "err:ptr\t" ++ spec)
   else if (replay s0.durable).isNone then ({ st with dead := true }, "err:replay\t" ++ spec)
-  else ({ st with s := crash s0 }, "ok\t" ++ spec)
+  else ({ st with s := crash s0, full := st.full && s0.buf.isEmpty }, "ok\t" ++ spec)
 
 def segsStr (s : Seg.S) : String :=
   let ids := Seg.segIds s
@@ -192,6 +201,9 @@ def stepSeg (st : DSt) (toks : List String) : DSt × String :=
   | ["s.watchdog"] =>
     let s' := Seg.watchdog st.scfg st.ss
     ({ st with ss := s' }, segsStr s' ++ "\t*")
+  | ["s.flushfail"] =>
+    let s' := Seg.flushFail st.scfg st.ss
+    ({ st with ss := s', puts := st.puts ++ [(0, s'.seq - 1), (0, s'.seq)] }, segsStr s' ++ "\t*")
   | ["s.segs"] => (st, segsStr st.ss ++ "\t*")
   | ["s.crash"] =>
     let s' := Seg.crash st.scfg st.ss
@@ -220,9 +232,16 @@ def step' (st : DSt) (toks : List String) : DSt × String :=
     match natOf? a, natOf? r with
     | some a, some r => runCall st (.compact a r)
     | _, _ => (st, "bad-op")
-  | ["other"] => bg st .other
+  | ["other"] =>
+    if st.full && !st.dead then
+      ({ st with s := step st.cfg (step st.cfg st.s .rotate) .other, full := false }, "ok\t*")
+    else bg st .other
+  | ["fill"] =>
+    if st.dead then (st, "dead\t*")
+    else if st.full then (st, "full\t*")
+    else ({ st with s := step st.cfg st.s .other, full := true }, "ok\t*")
   | ["sync"] => bg st .flush
-  | ["rotate"] => bg st .rotate
+  | ["rotate"] => let r := bg st .rotate; ({ r.1 with full := false }, r.2)
   | ["send"] => bg st .send
   | ["crash"] => doCrash st st.s
   | ["close"] => doCrash st (flush st.s)
